@@ -38,11 +38,16 @@ impl Clock {
         if d.subsec_nanos() % 1000 != 0 {
             self.subus.set(true);
         }
-        d.as_micros() as i64 + self.offset_us
+        let us = d.as_micros() as i64 + self.offset_us;
+        // TLC integers are 32 bit: runs that reach beyond 10^9 us are skipped as well
+        if us.abs() > 1_000_000_000 {
+            self.subus.set(true);
+        }
+        us
     }
 }
 fn dur_us(d: Duration, c: &Clock) -> i64 {
-    if d.subsec_nanos() % 1000 != 0 {
+    if d.subsec_nanos() % 1000 != 0 || d.as_micros() > 1_000_000_000 {
         c.subus.set(true);
     }
     d.as_micros() as i64
@@ -272,6 +277,11 @@ fn run(
         Err(_) => return Err("HANG: sim_advanced did not return within 20 s".to_string()),
     };
     let lines: Vec<Value> = recs.iter().map(|r| rec_json(r, &clock)).collect();
+    // accumulated aggregate delays shift base times that may never be logged: keep them in range too
+    let agg_total: i64 = lines.iter().filter(|l| l["k"] == "aggpop").map(|l| l["d"].as_i64().unwrap_or(0)).sum();
+    if agg_total > 500_000_000 {
+        clock.subus.set(true);
+    }
     match r {
         Ok(trace) => {
             let out: Vec<Value> = trace.iter().map(|e| out_event(e, &clock)).collect();
@@ -580,7 +590,7 @@ fn main() {
                 subus |= sub;
                 n_ev += hook.iter().filter(|l| l["k"] == "ev").count() as u64;
                 n_act += hook.iter().filter(|l| l["k"] == "act").count() as u64;
-                if let Some(fwf) = fw_out.as_mut() {
+                if let Some(fwf) = fw_out.as_mut().filter(|_| !sub) {
                     // per side: the embedded framework's calls as a FrameworkTrace scenario
                     for client in [true, false] {
                         let ms = if client { &sc.mc } else { &sc.ms };
@@ -628,14 +638,14 @@ fn main() {
                         }
                     }
                 }
-                if let Some(mf) = mech_out.as_mut() {
+                if let Some(mf) = mech_out.as_mut().filter(|_| !sub) {
                     // mechanism view: the records SimMech emits (fired ev act exit agg aggpop recv)
                     {
                         writeln!(mf, "{}", lines[0]).unwrap();
                         writeln!(mf, "{}", lines[1]).unwrap();
                         for h in hook.iter() {
                             let k = h["k"].as_str().unwrap_or("");
-                            if ["fired", "ev", "exit", "agg", "aggpop", "recv"].contains(&k) {
+                            if ["fired", "ev", "exit", "agg", "aggpop", "recv", "repl"].contains(&k) {
                                 writeln!(mf, "{}", h).unwrap();
                             } else if k == "act" {
                                 let mut a = h.clone();
